@@ -4380,3 +4380,30 @@ def t_loops_balanced(facts, res, tier):
                 res.fail(key, facts.where(fn, r), "%s returns `%s` between the push on `self.loops` and the pop: the entry stays, and a later `break` jumps to the end label of this construct, which was never emitted" % (fn["name"], expr_text(r.get("e") or {})[:30]))
     if n == 0:
         raise AnchorMissing("no push on self.loops found")
+
+
+@rule("T-LOAD-OPERAND-PROTECTED", floor=1,
+      text="`load(e)` is an explicit read: whatever `e` reads from memory or from a device register is read by the statement, once, at every "
+           "optimisation level.  In generate_statement the operand of a Load is evaluated between `self.protected = true` and `self.protected = "
+           "false`, and the flag is lowered before the result is opened with `?` (no exit with the flag up).  Evaluated unprotected, the `LDA REG` "
+           "of `load(*REG & 0x0f)` is an ordinary reload the optimiser deletes after `load(*REG)`")
+def t_load_operand_protected(facts, res, tier):
+    fn = facts.fn("generate_statement", genmodel.GEN_QUAL)
+    n = 0
+    for m in walk(fn["body"]):
+        if m.get("k") != "match":
+            continue
+        for a in m["arms"]:
+            if not pat_text(a["pat"]).replace(" ", "").startswith("Statement::Load("):
+                continue
+            n += 1
+            key = "T-LOAD-OPERAND-PROTECTED:generate_statement"
+            st = a["body"].get("stmts", [])
+            idx = next((i for i, s in enumerate(st) if any(_self_call(x, ("generate_expr",)) for x in walk(s))), None)
+            is_set = lambda s, v: s.get("k") == "assign" and expr_text(s["l"]).replace(" ", "") == "self.protected" and expr_text(s["r"]).strip() == v
+            ok = idx is not None and idx > 0 and idx + 1 < len(st) and is_set(st[idx - 1], "true") and is_set(st[idx + 1], "false") and not any(x.get("k") == "try" for x in walk(st[idx]))
+            res.inst(key, True, {"operand_evaluated_between_raise_and_lower": ok})
+            if not ok:
+                res.fail(key, facts.where(fn, st[idx] if idx is not None else a["body"]), "generate_statement evaluates the operand of load() without the protected flag raised around it (or leaves with the flag up on an error): the reads the operand makes are ordinary instructions the optimiser may delete")
+    if n == 0:
+        raise AnchorMissing("generate_statement: no arm for Statement::Load")
